@@ -9,6 +9,7 @@ import (
 	"os"
 	"path/filepath"
 	"sort"
+	"strconv"
 	"strings"
 )
 
@@ -23,6 +24,7 @@ type Spec struct {
 	ctors map[Sort][]string          // datatype -> constructor names
 	sels  map[Sort]map[string]string // datatype -> short field name -> selector function
 	files []string
+	lits  map[string]string
 }
 
 type sexp struct {
@@ -132,6 +134,19 @@ func LoadSpec(dir string, generated string) (*Spec, error) {
 		b.WriteString(generated)
 	}
 	sp.text = b.String()
+	sp.lits = map[string]string{}
+	for _, line := range strings.Split(sp.text, "\n") {
+		line = strings.TrimSpace(line)
+		if strings.HasPrefix(line, "; @lit ") {
+			rest := strings.TrimPrefix(line, "; @lit ")
+			i := strings.Index(rest, " ")
+			if i > 0 {
+				if v, err := strconv.Unquote(strings.TrimSpace(rest[i+1:])); err == nil {
+					sp.lits[v] = rest[:i]
+				}
+			}
+		}
+	}
 	forms, err := parseSexps(sp.text)
 	if err != nil {
 		return nil, fmt.Errorf("spec prelude: %v", err)
